@@ -215,14 +215,13 @@ def check(ctx, rep):
 
     # ---- f_nocancel
     nc = prog.cls("NoCancelFuture")
-    cm = nc.methods.get("cancel")
-    rep.ob("R-NOCANCEL", "NoCancelFuture overrides cancel", cm is not None, "NoCancelFuture must override cancel()", where_of(prog.fn("nocancel:f_nocancel")))
-    if cm is not None:
-        ps, it = ctx.paths(cm, nc)
-        for p in ps:
-            bad = [e for e in p.calls() if not q.is_log(e)]
-            rep.ob("R-NOCANCEL", "NoCancelFuture.cancel returns False", p.status == "return" and p.value == ("const", False), "must return the constant False, found %s (%s)" % (fmt(p.value), p.status), where_of(cm), trace_of(p))
-            rep.ob("R-NOCANCEL", "NoCancelFuture.cancel calls nothing", not bad, "cancel() of the shield calls %s" % (fmt(bad[0].d["func"]) if bad else ""), where_of(cm), trace_of(p))
+    o, cm = nc.lookup("cancel")
+    rep.require(cm is not None, "NoCancelFuture: no cancel() in the library part of the MRO")
+    ps, it = ctx.paths(cm, nc)
+    for p in ps:
+        bad = [e for e in p.calls() if q.call_name(e) in ("cancel", "_me_cancel") or (e.d["callee"] is not None and e.d["callee"].name in ("cancel", "_me_cancel"))]
+        rep.ob("R-NOCANCEL", "NoCancelFuture.cancel returns False", p.status == "return" and p.value == ("const", False), "cancel() of the shield (resolved to %s) must return the constant False on every path, found %s (%s) on path [%s]" % (cm.qualname, fmt(p.value), p.status, q.path_sig(p)[:80]), where_of(cm), trace_of(p))
+        rep.ob("R-NOCANCEL", "NoCancelFuture.cancel calls nothing that cancels", not bad, "cancel() of the shield reaches %s" % (fmt(bad[0].d["func"]) if bad else ""), where_of(cm), trace_of(p))
     fnc = prog.fn("nocancel:f_nocancel")
     ps, it = ctx.paths(fnc, None, depth=0)
     made = [e for p in ps for e in p.calls() if e.d["func"] == ("class", nc.key)]
